@@ -1500,6 +1500,9 @@ class Interp:
             if full_:
                 tags = frozenset(t_ for t_ in tags if not (isinstance(t_, tuple) and t_ and t_[0] == "ring")) | (
                     {self.np.RING_POISON} if rg_ == self.np.RING_POISON else {("ring", rg_)})
+            elif [t_ for t_ in first_.tags if isinstance(t_, tuple) and t_ and t_[0] == "ringidx"] and rg_ != self.np.RING_POISON:
+                k_ = [t_ for t_ in first_.tags if isinstance(t_, tuple) and t_ and t_[0] == "ringidx"][0][1]
+                tags = frozenset(t_ for t_ in tags if not (isinstance(t_, tuple) and t_ and t_[0] == "ring")) | {("ring", frozenset(o_ + k_ for o_ in rg_))}
             elif first_.kind in ("slice", "idx", "idxlist", "arr", "unknown", "list"):
                 tags = tags | {self.np.RING_POISON}           # a selection / reordering of the rows: no longer aligned with the ring
         sl_ = self.np.shape_last(base)
@@ -1674,6 +1677,17 @@ class Interp:
             out.tags = out.tags | {"square-of"}
         if isinstance(op, ast.Pow) and r.is_number_const() and r.const == 2 and out.kind in ("arr", "unknown"):
             out.tags = out.tags | {"square-of"}
+        if isinstance(op, ast.Mod):
+            ri_ = [t_ for t_ in l.tags if isinstance(t_, tuple) and t_ and t_[0] == "ringidx"]
+            if ri_:
+                out.tags = out.tags | {ri_[0]}                  # (i + k) % n
+        if isinstance(op, (ast.Add, ast.Sub)):
+            for a_, b_, sg_ in ((l, r, 1), (r, l, 1 if isinstance(op, ast.Add) else None)):
+                ri_ = [t_ for t_ in a_.tags if isinstance(t_, tuple) and t_ and t_[0] == "ringidx"]
+                if ri_ and sg_ is not None and b_.is_number_const() and isinstance(b_.const, int) and not isinstance(b_.const, bool):
+                    k_ = ri_[0][1] + (b_.const if (isinstance(op, ast.Add) or a_ is r) else -b_.const)
+                    out.tags = frozenset(t_ for t_ in out.tags if not (isinstance(t_, tuple) and t_ and t_[0] == "ringidx")) | {("ringidx", k_)}
+                    break
         if isinstance(op, ast.Sub) and l.is_number_const() and isinstance(l.const, float) and abs(l.const - 3.141592653589793) < 1e-12:
             rg_r = [t_ for t_ in r.tags if isinstance(t_, tuple) and t_ and t_[0] == "range"]
             if rg_r:
